@@ -124,7 +124,7 @@ func runC06(c *Ctx) {
 		keys = append(keys, k)
 	}
 	sort.Strings(keys)
-	r.Floor("ser-field", len(keys), 180, "parser-populated (type, field) pairs")
+	r.Floor("ser-field", len(keys), 150, "parser-populated (type, field) pairs")
 	for _, fam := range []string{"SQL", "Format"} {
 		reads := fams[fam]
 		// types with no field read at all by this family
@@ -199,7 +199,7 @@ func runC06(c *Ctx) {
 			r.Violate("ser-method", name, built[name], "the parser constructs "+name+" but the type has no SQL() method: AST.SQL() skips it or prints a placeholder")
 		}
 	}
-	r.Floor("ser-method", len(bn), 15, "statement types returned by the parser")
+	r.Floor("ser-method", len(bn), 10, "statement types returned by the parser")
 	runC06Kw(c)
 	c06OptionIndependence(c, p, astPath)
 	_ = token.ADD
